@@ -25,7 +25,9 @@ Record pstep_obs := {
   po_ev : option pevent;                 (* None = the start step *)
   po_calls : list rpc;                   (* RPCs the implementation issued in this step, in order *)
   po_cancels : list nat;
-  po_reply : option (option reply)       (* simulated node's reply for a process event *)
+  po_reply : option (option reply);      (* simulated node's reply for a process event *)
+  po_timeout : bool                      (* the process event is the node's legitimate "timed out" answer to a wait that carried a
+                                            timeout (only changed code passes one): an error reply for the model, but not a fault *)
 }.
 
 Definition cancelled_ids (cs : list call) : list nat :=
@@ -71,7 +73,7 @@ Definition has_read_fault (init : psys) (tr : list pstep_obs) : bool :=
   snd (fold_left (fun acc st =>
          let '(s, b) := acc in
          match po_ev st with
-         | Some ev => (pstep s ev, b || negb (no_read_fault s ev))
+         | Some ev => (pstep s ev, b || (negb (no_read_fault s ev) && negb (po_timeout st)))
          | None => acc end) tr (init, false)).
 
 (* verdict: [malformed; first mismatch step; result mismatch; monitor fail; read fault in trace; shape] *)
